@@ -42,6 +42,13 @@ def main():
         for n in sorted(names):
             f.write(n + '\n')
     print(len(names), 'names')
+    dg = os.path.join(os.path.dirname(os.path.abspath(__file__)), '..', 'kpsa', 'known_digests.txt')
+    with open(dg, 'w', encoding='utf-8') as f:
+        f.write('# body digests of the anchor functions (rename recovery, see kpsa/model.py); tools/gen_known_names.py\n')
+        for q, fi in sorted(prog.functions.items()):
+            if fi.module.generated or fi.module.legacy or q.endswith('.setter') or isinstance(fi.node, ast.Lambda):
+                continue
+            f.write(f'{q}\t{Program.body_digest(fi.node)}\n')
 
 
 main()
